@@ -129,7 +129,7 @@ func runC05(c *Checker) {
 			if isMethod && i == 0 && mutator {
 				continue
 			}
-			if isMethod && i == 0 && !strings.HasSuffix(pp, "/packet") {
+			if isMethod && i == 0 && !strings.HasSuffix(pp, "/packet") && !byteBuffer(p.Type()) {
 				continue // receivers of parsed objects are the library's own state
 			}
 			nro++
